@@ -5,8 +5,10 @@ CONSTANTS
   MustBound = {"then_pool_saturated", "pipeline_serial_p0", "pipeline_serial_p1", "pipeline_serial_p2",
                "graph_chain_p2", "graph_comb_p1", "cts_recursive_heavy_p1",
                "cts_recursive_light_p1", "ts_recursive_p1", "pool_recursive_p1",
-               "pipeline_serial_fault_p1", "pipeline_serial_fault_p2", "pipeline_serial_fault_open_p3"}
-  MustPlace = {"pipeline_serial_fault_p1", "pipeline_serial_fault_p2", "pipeline_serial_fault_open_p3"}
+               "pipeline_serial_fault_p1", "pipeline_serial_fault_p2", "pipeline_serial_fault_open_p3",
+               "cts_recursive_heavy_fault_p1", "cts_recursive_light_fault_p1"}
+  MustPlace = {"pipeline_serial_fault_p1", "pipeline_serial_fault_p2", "pipeline_serial_fault_open_p3",
+               "cts_recursive_heavy_fault_p1", "cts_recursive_light_fault_p1"}
 SPECIFICATION Spec
 CHECK_DEADLOCK FALSE
 POSTCONDITION TraceAccepted
